@@ -71,9 +71,9 @@ def main():
         out["error"] = "demo does not discriminate (without=%s, with=%s)" % (rc0, rc1)
     # 2. repository tests with the change
     if not no_tests:
-        rct, ot = sh("PYTHONPATH=%s timeout 6000 /venv/bin/python -m pytest -q -p no:cacheprovider --timeout=900 -q -x 2>&1 | tail -5" % wt, cwd=wt, timeout=7000)
+        rct, ot = sh("PYTHONPATH=%s timeout 6000 /venv/bin/python -m pytest -q -p no:cacheprovider --timeout=3000 -q 2>&1 | tail -8" % wt, cwd=wt, timeout=7000)
         out["repo_tests_with_change"] = ot.strip()[-300:]
-        out["repo_tests_pass"] = ("failed" not in ot) and ("error" not in ot.lower() or "0 error" in ot.lower())
+        out["repo_tests_pass"] = ("FAILED" not in ot) and ("failed" not in ot) and ("Timeout" not in ot) and (" error" not in ot.lower())
     # 3. the checks against the changed tree
     out["checks"] = {}
     for p in [pid] + extra:
